@@ -226,7 +226,7 @@ def eval_root(case):
         cached_member = st.rules.get('daily12c')
         cm = None
         if cached_member is not None:
-            cm = (len(cached_member._cache), bool(cached_member._cache_complete))
+            cm = (len(getattr(cached_member, '_cache', None) or ()), bool(getattr(cached_member, '_cache_complete', False)))
         return (tuple(tuple(sorted(st.members[k])) for k in ('rrule', 'rdate', 'exrule', 'exdate')),
                 None if c is None else len(c), bool(getattr(s, '_cache_complete', False)),
                 getattr(s, '_len', None), cm)
